@@ -464,9 +464,12 @@ def run_latex_pipeline(ctx):
                                     ctx.tally('tex header of', 'graph sub-command' if cs['case'].get('graph') else 'numeric sub-command')
         if prop_fail is not None:
             ctx.disagreements_checked += 1
-            rp = dict(replay, property=prop_id, deviation=prop_fail)
-            ctx.violation('counterexample', ('the comment header of the output: ' if prop_id == 'C19' else 'the output does not denote the formula held in memory: ') + prop_fail[:200],
-                          rp, True, site=site, cls=('header|' if prop_id == 'C19' else '') + cl)
+            if prop_id == 'C19':
+                # the header is comment text: C12 itself holds on this output; what broke is the tie to coq/PipelineTex.v (header shape, property C19)
+                ctx.violation('correspondence', 'the comment header of the output no longer follows coq/PipelineTex.v (see property C19): ' + prop_fail[:200],
+                              dict(replay, related_property='C19', deviation=prop_fail, theorem='Prop_C12_pipeline.pipeline_graph_header_shape'), False, site=site, cls='header|' + cl)
+            else:
+                ctx.violation('counterexample', 'the output does not denote the formula held in memory: ' + prop_fail[:200], dict(replay, deviation=prop_fail), True, site=site, cls=cl)
             continue
         if m[0] == 'outside':
             continue
@@ -483,7 +486,7 @@ def run_latex_pipeline(ctx):
             diff = [i for i in range(max(len(a), len(b))) if (a[i] if i < len(a) else None) != (b[i] if i < len(b) else None)]
             head_marks = ('c ', '* ', 'description: ', 'generator: ', 'copyright: ', 'url: ', 'transformation ', 'command line: ', '\\title{')
             in_header = all((a[i] if i < len(a) else '').startswith(head_marks) and not (a[i] if i < len(a) else '').startswith(('c varname', '* varname', '* #variable')) for i in diff)
-            rp = dict(replay, property='C19' if in_header else 'C12', first_difference=dict(line=diff[0] + 1 if diff else None, model=a[diff[0]][:200] if diff and diff[0] < len(a) else None,
+            rp = dict(replay, related_property='C19' if in_header else 'C12', first_difference=dict(line=diff[0] + 1 if diff else None, model=a[diff[0]][:200] if diff and diff[0] < len(a) else None,
                                                                                           tool=b[diff[0]][:200] if diff and diff[0] < len(b) else None))
             ctx.violation('correspondence', 'model (coq/PipelineTex.v) and %s write different bytes%s although the real output passes the direct check of the statement' % (tool, ' (header entries only)' if in_header else ''),
                           rp, False, site=site, cls=('header|' if in_header else '') + cl)
